@@ -28,13 +28,13 @@ def typeOf : Nat → SType
 def typeCode : SType → Nat
   | .unique => 0 | .file => 1 | .block => 2 | .blockBegin => 3 | .blockEnd => 4 | .macro => 5
 
-/-- errorId fileName line lineBegin lineEnd type symbolName macroName hash thisAndNextLine -/
+/-- errorId fileName line lineBegin lineEnd type symbolName macroName hash thisAndNextLine isInline -/
 def parseSuppr : List String → Option (Suppr × List String)
-  | id :: fn :: ln :: lb :: le :: ty :: sym :: mac :: h :: tanl :: rest =>
+  | id :: fn :: ln :: lb :: le :: ty :: sym :: mac :: h :: tanl :: inl :: rest =>
     match fromHex id, fromHex fn, parseInt ln, parseInt lb, parseInt le, ty.toNat?, fromHex sym, fromHex mac, h.toNat? with
     | some id, some fn, some ln, some lb, some le, some ty, some sym, some mac, some h =>
       some ({ errorId := id, fileName := fn, lineNumber := ln, lineBegin := lb, lineEnd := le, type := typeOf ty,
-              symbolName := sym, macroName := mac, hash := h, thisAndNextLine := tanl == "1" }, rest)
+              symbolName := sym, macroName := mac, hash := h, thisAndNextLine := tanl == "1", isInline := inl == "1" }, rest)
     | _, _, _, _, _, _, _, _, _ => none
   | _ => none
 
@@ -84,8 +84,8 @@ def lineErrStr : LineErr → String
   | .add e => "A:" ++ addErrStrMerged e
 
 def xmlErrStr : XmlErr → String
-  | .expectedSuppress => "E:expected" | .unknownElement => "E:unknown" | .throwLine _ => "T"
-  | .throwHash => "T" | .add e => "A:" ++ addErrStrMerged e
+  | .expectedSuppress => "E:expected" | .unknownElement => "E:unknown" | .badLine e => "E:line:" ++ intErrStr e
+  | .badHash => "E:hash" | .add e => "A:" ++ addErrStrMerged e
 
 /-! tables -/
 
